@@ -653,6 +653,19 @@ example : (∀ c ∈ [0,1,2,0,1,0], c < 3) ∧ 2 < [0,1,2,0,1,0].length := by de
 example : (reverse false (#[1, 2, 3] : Array Nat) #[0, 0, 0] 0 3) = #[3, 2, 1] := by decide
 example : (reverse true (#[1, 2, 3, 4] : Array Nat) #[1, 2, 3, 4] 0 4) = #[4, 3, 2, 1] := by decide
 
+/-- hypotheses of the bijection theorems are satisfiable: distinct entries, a target arrangement, the frame condition -/
+example : (#[0,1,2] : Array Nat).toList.Nodup ∧ (#[2,0,1] : Array Nat).toList.Perm (#[0,1,2] : Array Nat).toList := by decide
+example : ∃ rs, ValidRolls 3 rs ∧ cShuffleRolls (#[0,1,2] : Array Nat) rs = #[2,0,1] := ⟨[1,0], by simp [ValidRolls], by decide⟩
+example : (#[0,2,1,3] : Array Nat).toList.Perm (Array.range 4).toList ∧
+    ∀ p, (p < 1 ∨ 1 + 2 ≤ p) → (#[0,2,1,3] : Array Nat)[p]? = (Array.range 4)[p]? := by
+  refine ⟨by decide, fun p hp => ?_⟩
+  rcases hp with hp | hp
+  · have : p = 0 := by omega
+    subst this; rfl
+  · by_cases h3 : p = 3
+    · subst h3; rfl
+    · rw [Array.getElem?_eq_none (by simp; omega), Array.getElem?_eq_none (by simp; omega)]
+example : sampleClass 5 = some isDigitB ∧ (sampleTable isDigitB).size = 10 := ⟨rfl, by decide⟩
 /-- the six in-range roll vectors of a 3-element shuffle give the six arrangements -/
 example : ([[0,0],[0,1],[1,0],[1,1],[2,0],[2,1]].map (cShuffleRolls #[0,1,2])).Nodup ∧
     cShuffleRolls #[10,20,30] [0,0] = #[20,30,10] := by decide
